@@ -8,7 +8,10 @@ Request 1 (T-step):  `<slots> | <op> <op> …`
   macro ops (each runs to completion, i.e. is followed by `drain`, as on one thread):
     `fg` new free flush guard · `dg` new force-flush guard · `mut:<v>` (`&mut` through the owner) ·
     `hit:<v>` (`&self`, through owner or handle) · `hnd` `.handle()` · `cl` clone a handle ·
-    `dref` drop the owner / one handle · `dfg` drop a free flush guard · `ddg` drop a force-flush guard ·
+    `dref` drop the owner / one handle · `fin:<k>:<v>` finish the direct owner through the k-th public finisher
+    (0 drop, 1 `Instrumented::emit`, 2 `discard_metrics`, 3 `into_parts`, 4 `split_metrics_to`, 5–7 `instrument` /
+    `on_success` / `on_error` / `finalize_metrics` / `instrument_async` writing `plain := v`, then `emit`) ·
+    `ctor:<k>` (first op only) which constructor built the owner · `dfg` drop a free flush guard · `ddg` drop a force-flush guard ·
     `open:<i>:<w|d>:<v0>` (`w` consumes a free flush guard) · `delay:<i>` (`delay_flush`, consumes a free
     flush guard) · `wb:<i>` first poll of `wait_for_data` · `wp` poll again · `wc` drop the future ·
     `gm:<i>:<v>` mutate through the slot guard · `gd:<i>` drop the slot guard · `gc:<i>` `parent_is_closed()`
@@ -65,6 +68,21 @@ def macroOp (s : St) (f : List String) : Option (St × String) :=
   | ["hnd"] => fin [.toHandle] fun _ => "-"
   | ["cl"] => fin [.cloneHandle] fun _ => "-"
   | ["dref"] => fin [.refDrop] fun _ => "-"
+  -- every public finisher of a directly owned guard is, in the model, the owner's drop (`refDrop` with the
+  -- last owning reference); finishers 5.. write `plain := v` through `&mut` on the way (`Instrumented::instrument`,
+  -- `on_success`, `on_error`, `finalize_metrics`, `instrument_async`)
+  | ["fin", k, v] =>
+    match k.toNat?, v.toNat? with
+    | some k, some v =>
+      if s.isHandle || k ≥ 8 then none
+      else if k ≥ 5 then fin [.mutate v, .refDrop] fun _ => "-"
+      else fin [.refDrop] fun _ => "-"
+    | _, _ => none
+  -- `append_on_drop` and `append_and_close` build the same initial state
+  | ["ctor", k] =>
+    match k.toNat? with
+    | some k => if k < 2 && s == init s.slots then some (s, "-") else none
+    | none => none
   | ["dfg"] => fin [.fgDrop] fun _ => "-"
   | ["ddg"] => fin [.dgBegin] fun _ => "-"
   | ["open", i, m, v0] =>
